@@ -198,6 +198,18 @@ theorem quat_alg_is_zero_translated_exact (p : ℤ) (x : Elem) (hx : x.denom ≠
     QuaternionAlgebra.re_zero, QuaternionAlgebra.imI_zero, QuaternionAlgebra.imJ_zero, QuaternionAlgebra.imK_zero,
     div_eq_zero_iff, Int.cast_eq_zero, and_assoc, hd', or_false]
 
+/-- the translated C text of `quat_alg_normalize` (content, gcd with the denominator, five truncated divisions, and the sign
+    branch `if (0 < ibz_cmp(&zero, &x->denom))` as an if-then-else) = the model; it keeps the value in `H p` and makes the
+    denominator positive -/
+theorem quat_alg_normalize_translated_exact (p : ℤ) (x : Elem) (hx : x.denom ≠ 0) :
+    let r := QuatAlgText.ofTup (SqiGen.QuatAlg.quat_alg_normalize x.denom x.coord.x0 x.coord.x1 x.coord.x2 x.coord.x3)
+    r = algNormalize x ∧ val p r = val p x ∧ 0 < r.denom := by
+  intro r
+  have h : r = algNormalize x := by simp only [r, QuatAlgText.normalize_gen, QuatAlgText.ofTup_tup]
+  rw [h]; exact ⟨rfl, algNormalize_val p x hx⟩
+
+example : SqiGen.QuatAlg.quat_alg_normalize (-6) 4 (-2) 0 8 = (3, -2, 1, 0, -4) := by decide
+
 example : SqiGen.QuatAlg.quat_alg_sub 2 1 2 3 4 3 5 6 7 8 = (6, -7, -6, -5, -4) := by decide
 
 /-- tie T: the entry scan of `ibz_mat_4x4_gcd` as translated from the current C text is the model's content of ALL 16
